@@ -87,9 +87,66 @@ def main():
     for _ in range(n // 2):
       hist.append(('edge', rnd.randrange(n), rnd.randrange(n)))
     run(hist, max(1, len(hist) // 6))
+  # the user of reachability that C09 names: Variable.Bindings(viewpoint) (Variable::Prune).  A variable with ONE binding is
+  # visible from a viewpoint iff one of the nodes it was bound at reaches the viewpoint; with several bindings the visible ones
+  # are found by walking backwards from the viewpoint and stopping at the first binding on every path.
+  prune_checks = 0
+
+  def run_prune(n, edges, binds):
+    nonlocal prune_checks
+    p = cfg.Program()
+    nodes = [p.NewCFGNode('n%d' % i) for i in range(n)]
+    for a, b in edges:
+      nodes[a].ConnectTo(nodes[b])
+    reach = closure(n, edges)
+    pred = [[] for _ in range(n)]
+    for a, b in edges:
+      if a != b:
+        pred[b].append(a)
+    for where_list in binds:            # one variable per entry: [(data, node), ...]
+      v = p.NewVariable()
+      for data, w in where_list:
+        v.AddBinding(data, [], nodes[w])
+      datas = sorted({d for d, _ in where_list})
+      for vp in range(n):
+        prune_checks += 1
+        got = sorted(b.data for b in v.Bindings(nodes[vp]))
+        if len(datas) == 1:
+          want = datas if any(vp in reach[w] for _, w in where_list) else []
+        else:
+          want, seen, todo = set(), set(), [vp]
+          while todo:
+            x = todo.pop()
+            if x in seen:
+              continue
+            seen.add(x)
+            here = [d for d, w in where_list if w == x]
+            if here:
+              want.update(here)
+              continue
+            todo.extend(pred[x])
+          want = sorted(want)
+        if got != want and len(violations) < 10:
+          violations.append(dict(kind='prune', what='variable bound %r: Bindings(n%d) = %r but the graph (edges %r) gives %r' % (
+              where_list, vp, got, edges, want), nodes=n, edges=len(edges)))
+          return
+  for trial in range(300 if tier == 'quick' else 4000):
+    n = rnd.choice([2, 3, 4, 5, 6])
+    edges = [(rnd.randrange(n), rnd.randrange(n)) for _ in range(rnd.randrange(0, 2 * n))]
+    binds = []
+    for _ in range(3):
+      k = rnd.choice([1, 1, 1, 2, 3])
+      if k == 1:
+        binds.append([('A', rnd.randrange(n)) for _ in range(rnd.choice([1, 1, 2]))])     # one binding, possibly at two nodes
+      else:
+        binds.append([(rnd.choice('ABC'), rnd.randrange(n)) for _ in range(k)])
+    run_prune(n, edges, binds)
+    if len(violations) >= 10:
+      break
   print(json.dumps(dict(
       violations=violations,
-      bounded=[dict(function='Program.NewCFGNode / CFGNode.ConnectTo / Program.is_reachable (compiled extension)',
+      bounded=[dict(function='Variable.Bindings(viewpoint) = Variable::Prune (user of reachability)', bound='random graphs of <=6 nodes (edges in any direction incl. back edges), 3 variables each, every viewpoint', cases=prune_checks),
+               dict(function='Program.NewCFGNode / CFGNode.ConnectTo / Program.is_reachable (compiled extension)',
                     bound='all histories of <=%d edges over 3 nodes; %d random interleaved histories up to 200 nodes (multi-bucket), all ordered pairs vs BFS' % (
                         3 if tier == 'quick' else 4, 12 if tier == 'quick' else 120), cases=comparisons)],
       spec_validation=[dict(spec='R (bit matrix view) and the closure statement vs BFS over the recorded edge list')],
